@@ -363,6 +363,64 @@ Proof.
     match goal with |- context [validate ?m] => rewrite (bounds_validate m) by (cbn [m_length]; lia) end;
     eexists; reflexivity.
 Qed.
+(* compress fails only where the finder fails or a token constructor refuses: for a sound finder on a
+   payload of at most MAX_DECOMPRESSED_SIZE bytes the encoder never refuses (every length fits the 30-bit form) *)
+Lemma gen_ok_encodable x : nlen x <= MAX_DECOMPRESSED_SIZE ->
+  forall ms pos, gen_ok x ms pos -> forallb encodable ms = true.
+Proof.
+  intros Hmax. induction ms as [|m t IH]; intros pos G; cbn [forallb]; [reflexivity|].
+  destruct G as (Hp & _ & Hv & Hg & Gt). rewrite (IH _ Gt), andb_true_r.
+  unfold encodable. rewrite Hv. cbn [andb].
+  pose proof (tok_gen_bound x pos m Hp Hg) as Hb. unfold MAX_DECOMPRESSED_SIZE in Hmax.
+  destruct m; cbn [vl_fits m_length] in *; try reflexivity; apply N.ltb_lt; lia.
+Qed.
+
+Lemma find_loop_defined et stop find x :
+  finder_sound x find ->
+  (forall pos, pos < nlen x -> find pos <> AErr) ->
+  (forall pos d len, pos < nlen x -> find pos = AMatch d len -> d <= 65793 /\ len <= 65535) ->
+  forall fuel pos acc, nlen x - pos < N.of_nat fuel ->
+  exists ms, simd_find_loop et stop find fuel (nlen x) pos acc = Ok ms.
+Proof.
+  intros Hs Hne Hb. induction fuel as [|f IH]; intros pos acc Hf; [exfalso; lia|]. cbn [simd_find_loop].
+  destruct (N.ltb_spec pos (nlen x)) as [Hp|Hp]; [|eexists; reflexivity].
+  assert (Ht : exists m, answer_token (find pos) = Some m).
+  { destruct (find pos) as [|d len|] eqn:Hfp; cbn [answer_token].
+    - eexists. apply simd_literal_token_val.
+    - destruct (Hb pos d len Hp Hfp) as [B1 B2]. destruct (Hs pos d len Hp Hfp) as (T1 & T2 & _).
+      apply simd_token_defined_proof; lia.
+    - exfalso. exact (Hne pos Hp Hfp). }
+  destruct Ht as [m Ht]. rewrite Ht.
+  destruct (simd_early et stop (acc ++ [m])); [eexists; reflexivity|].
+  apply IH. assert (1 <= answer_advance (find pos) m).
+  { destruct (find pos); cbn [answer_advance]; unfold simd_advance; lia. }
+  lia.
+Qed.
+
+Lemma simd_compress_defined_proof :
+  forall et stop find x,
+  finder_sound x find -> nlen x <= MAX_DECOMPRESSED_SIZE ->
+  (forall pos, pos < nlen x -> find pos <> AErr) ->
+  (forall pos d len, pos < nlen x -> find pos = AMatch d len -> d <= 65793 /\ len <= 65535) ->
+  exists z, simd_compress et stop find x = Ok z.
+Proof.
+  intros et stop find x Hs Hmax Hne Hb. destruct x as [|x0 xt]; [eexists; reflexivity|].
+  unfold simd_compress, simd_find_matches.
+  destruct (find_loop_defined et stop find (x0 :: xt) Hs Hne Hb (S (length (x0 :: xt))) 0 [])
+    as [ms Hf]; [rewrite nlen_length; lia|].
+  rewrite Hf. cbn [rbind].
+  assert (Hn : nlen (x0 :: xt) < 4294967296) by (unfold MAX_DECOMPRESSED_SIZE in Hmax; lia).
+  destruct (find_loop_spec et stop find (x0 :: xt) Hs Hn _ _ _ _ Hf) as (new & Hms & G & _).
+  cbn [app] in Hms. subst new.
+  destruct (encode_matches_spec ms (gen_ok_encodable _ Hmax ms 0 G)) as (bytes & E & _).
+  unfold simd_encode. rewrite E. eexists. reflexivity.
+Qed.
+(* a refused answer aborts the whole compression *)
+Definition far_find (pos : N) : answer := if pos =? 2 then AMatch 65794 33 else ANone.
+Example simd_compress_refused :
+  simd_compress false no_stop far_find [104; 104; 104] = Err.
+Proof. vm_compute. reflexivity. Qed.
+
 (* refused: a far short match (the Far3Long fallback needs length >= 34), a Far2Long length whose low 16 bits
    are below 34, a distance beyond 2^24 - 1 *)
 Example simd_token_refusals :
